@@ -31,6 +31,8 @@ func main() {
 		cmdRanges(os.Args[2:])
 	case "dump":
 		cmdDump(os.Args[2:])
+	case "frames":
+		cmdFrames(os.Args[2:])
 	default:
 		fmt.Fprintln(os.Stderr, "unknown command", os.Args[1])
 		os.Exit(2)
